@@ -640,3 +640,62 @@ Proof.
   destruct (via_fits_written_1d fs' p _ _ k Hl) as [Hv Hh]. unfold Mask1D_from_fits. rewrite Hv, Hh, Hk.
   cbn [fbind]. rewrite tobool_tofloat_row, pixel_scale_header_1d. split; reflexivity.
 Qed.
+
+(* ================================================================== composed statements used by Props/C16.v *)
+Theorem Array2D_masked_hdu_roundtrip flip (vals : list (list (T RO))) mask sc : same_len2 vals mask = true ->
+  exists a a', @Array2D_new RO vals mask sc = FOk a
+    /\ Array2D_from_primary_hdu flip (Array2D_hdu_for_output flip a) = FOk a'
+    /\ Array2D_native a' = @zero_fill RO mask vals
+    /\ a_mask a' = all_false2 (@zero_fill RO mask vals)
+    /\ a_scales a' = sc.
+Proof.
+  intros H. destruct (Array2D_new_native vals mask sc H) as [a [Ha [Hn [Hm Hs]]]].
+  destruct (Array2D_hdu_roundtrip flip a) as [a' [Hr [Hn' [Hm' Hs']]]].
+  exists a, a'. rewrite Hn', Hm', Hs', Hn, Hs. auto.
+Qed.
+Theorem Array1D_masked_hdu_roundtrip flip (vals : list (T RO)) mask sc : length vals = length mask ->
+  exists a', Array1D_from_primary_hdu (Array1D_hdu_for_output flip (@Array1D_new RO vals mask sc)) = FOk a'
+    /\ Array1D_native a' = @zero_fill_row RO mask vals
+    /\ b_scale a' = sc.
+Proof.
+  intros H. destruct (Array1D_new_native vals mask sc H) as [Hn [Hm Hs]].
+  destruct (Array1D_hdu_roundtrip flip (@Array1D_new RO vals mask sc)) as [a' [Hr [Hn' [Hm' Hs']]]].
+  exists a'. rewrite Hn', Hs', Hn, Hs. auto.
+Qed.
+
+Section FSStatements.
+  Context {C : Type}.
+  Implicit Types (fs : fsys C) (p q : path) (c : C).
+  Theorem overwrite_replaces fs p c : fs_wf fs = true -> target_ok fs p = true ->
+    exists fs', to_fits fs p true c = (fs', None)
+      /\ lookup (files fs') p = Some c
+      /\ (forall q, q <> p -> lookup (files fs') q = lookup (files fs) q).
+  Proof.
+    intros Hwf Hok. destruct (to_fits_success fs p true c Hwf Hok eq_refl) as [fs' [H1 [H2 [H3 _]]]].
+    exists fs'. auto.
+  Qed.
+  Theorem missing_dirs_created fs p ow c : fs_wf fs = true -> target_ok fs p = true -> fresh_or_overwrite fs p ow = true ->
+    exists fs', to_fits fs p ow c = (fs', None)
+      /\ (forall q, In q (prefixes (dirname p)) -> is_dir fs' q = true)
+      /\ (forall q, is_dir fs q = true -> is_dir fs' q = true)
+      /\ (forall q, is_dir fs' q = true -> is_dir fs q = true \/ In q (prefixes (dirname p)))
+      /\ lookup (files fs') p = Some c.
+  Proof.
+    intros Hwf Hok Hfo. destruct (to_fits_success fs p ow c Hwf Hok Hfo) as [fs' [H1 [H2 [_ [H4 _]]]]].
+    exists fs'. split; [exact H1|]. repeat split; try assumption.
+    - intros q Hq. rewrite H4. apply orb_true_iff. right. apply existsb_exists. exists q. split; [assumption|apply path_eqb_refl].
+    - intros q Hq. rewrite H4, Hq. reflexivity.
+    - intros q Hq. rewrite H4 in Hq. apply orb_true_iff in Hq. destruct Hq as [Hq|Hq]; [now left|right].
+      apply existsb_exists in Hq. destruct Hq as [x [Hx E]]. apply path_eqb_eq in E. now subst.
+  Qed.
+  Theorem bare_name_writes_cwd fs (name : nat) ow c :
+    fs_wf fs = true -> target_ok fs [name] = true -> fresh_or_overwrite fs [name] ow = true ->
+    exists fs', to_fits fs [name] ow c = (fs', None)
+      /\ dirs fs' = dirs fs
+      /\ lookup (files fs') [name] = Some c
+      /\ (forall q, q <> [name] -> lookup (files fs') q = lookup (files fs) q).
+  Proof.
+    intros Hwf Hok Hfo. destruct (to_fits_success fs [name] ow c Hwf Hok Hfo) as [fs' [H1 [H2 [H3 [_ H5]]]]].
+    exists fs'. repeat split; auto.
+  Qed.
+End FSStatements.
